@@ -222,6 +222,20 @@ def r11b(ctx: Context) -> None:
     if len(handler_sites) != 1:
         raise AnalysisError("setup function has several callers")
     handler = handler_sites[0].caller
+    # (a') every source line is shown to the recogniser: along handler -> setup -> wrapper -> recogniser
+    # nothing but the extension's flag decides whether the next call is made
+    chain = [(handler, handler_sites[0].node), (setup, wrapper_sites[0].node), (wrapper, callers[0].node)]
+    conditions = []
+    for func, call in chain:
+        for test, polarity in guards_of(func.node, call, include_asserts=False):
+            text = ("" if polarity else "not ") + norm(test)
+            if not (polarity and "pragmas_enabled" in norm(test)):
+                conditions.append(f"{func.short}: {text}")
+    key = func_key(setup) + ": every line"
+    if conditions:
+        rule.fail(key, where(setup, wrapper_sites[0].node), f"whether a line is shown to the pragma recogniser depends on {conditions[:3]}: in that parser state a pragma line is parsed as document text (it becomes visible to the parser and its suppression is lost)")
+    else:
+        rule.ok(key, "only the extension flag decides whether the recogniser runs")
     before = []
     for stmt in handler.node.body:
         if any(sub is handler_sites[0].node for sub in ast.walk(stmt)):
@@ -612,6 +626,39 @@ def r11g(ctx: Context) -> None:
             rule.fail(key, where(func), "a path through the pragma compiler neither records a suppression nor reports the pragma as malformed: the pragma is silently ignored", conds)
         else:
             rule.ok(key, f"{count} paths")
+    # 'disable-num-lines N' with N < 1 is malformed (documented: a positive integer): the parse helper may report
+    # success only under a test that excludes a count of 0
+    from sa.rules.c17 import _evaluate_int_predicate
+
+    parse = prog.method(PRAGMA_EXT, "__handle_disable_num_lines_parse")
+    counts = {
+        t.id for n in walk_local(parse.node) if isinstance(n, ast.Assign) and any(isinstance(c, ast.Call) and dotted(c.func) == "int" for c in ast.walk(n.value))
+        for t in n.targets if isinstance(t, ast.Name)
+    }
+    successes = [r for r in returns_of(parse) if isinstance(r, ast.Tuple) and r.elts and isinstance(r.elts[0], ast.Constant) and r.elts[0].value is True]
+    if not counts or not successes:
+        raise AnalysisError("disable-num-lines parse helper: count variable or success return not found")
+    for ret in successes:
+        returned = [e.id for e in ret.elts if isinstance(e, ast.Name) and e.id in counts]
+        key = f"{parse.short}: count at least 1"
+        if not returned:
+            rule.fail(key, where(parse, ret), "the success result of the count parser no longer carries the parsed count")
+            continue
+        name = returned[0]
+        ret_stmt = next(n for n in walk_local(parse.node) if isinstance(n, ast.Return) and n.value is ret)
+        facts = guards_of(parse.node, ret_stmt, include_asserts=False)
+
+        def admitted(value: int) -> bool:
+            for test, polarity in facts:
+                verdict = _evaluate_int_predicate(test, name, value)
+                if verdict is not None and verdict != polarity:
+                    return False
+            return True
+
+        if admitted(0) or admitted(-1) or not admitted(1) or not admitted(7):
+            rule.fail(key, where(parse, ret_stmt), f"a count is accepted under {[('' if p else 'not ') + norm(t)[:50] for t, p in facts]}, which does not exclude {0 if admitted(0) else -1 if admitted(-1) else 'only valid counts'}: 'disable-num-lines 0' is taken as a valid pragma that suppresses nothing instead of being reported")
+        else:
+            rule.ok(key, "success is returned only when the count is at least 1")
 
 
 def run(ctx: Context) -> None:
